@@ -100,3 +100,35 @@ Definition mogen_ao (s : cmap orswot) (a : N) (c : mocmd) : option (mop oop) :=
   if mo_addonly c then mogen s a c else None.
 Notation moreach_pa := (reach mnew (mapply orswot_valops) (mmerge orswot_valops) adm_per_actor False).
 Notation mohist_ok_pa := (hist_ok mnew (mapply orswot_valops) (mmerge orswot_valops) mogen_ao adm_per_actor False).
+
+(** * Maps whose keys are never removed (commands [MOAdd] and [MORm] only): per-actor delivery AND
+    state merges.
+
+    Findings T2 and T3 both need a key remove.  Without key removes a [Map<K, Orswot<M>>] is a family
+    of independent Orswots, one per key, that share the map clock as the source of their dots: the
+    value under key [k] is the Orswot specification of the nested ops addressed to [k]
+    ([mo_proj]), its entry clock the join of the dots of the updates of [k].  The COMPLETE state is
+    then a function of the knowledge ([mapor_spec_nk]), so the replicated-system framework applies
+    with [mergeable := True]: convergence, the merge laws, hybrid replication, absorption. *)
+Definition mo_nokrm (c : mocmd) : bool := match c with MOKeyRm _ _ => false | _ => true end.
+Definition mogen_nk (s : cmap orswot) (a : N) (c : mocmd) : option (mop oop) :=
+  if mo_nokrm c then mogen s a c else None.
+
+(** the nested ops addressed to key [k] *)
+Definition mo_proj (os : list (mop oop)) (k : N) : list oop :=
+  omap (λ o, match o with MUp _ k' o' => if bool_decide (k' = k) then Some o' else None | MRm _ _ => None end) os.
+
+Definition mapor_spec_nk_of (os : list (mop oop)) : cmap orswot :=
+  CMap (mspec_clock os)
+       (fn_map (list_to_set (mkeys_mentioned os))
+               (λ k, Some (MEntry (mspec_entry_clock os k) (ospec_of (mo_proj os k)))))
+       ∅.
+Definition mapor_spec_nk (H : list (oprec (mop oop))) (K : gset nat) : cmap orswot :=
+  mapor_spec_nk_of (known_ops H K).
+
+(** decider for the monitor *)
+Definition mapor_nk_ok (H : list (oprec (mop oop))) (K : gset nat) (s : cmap orswot) : bool :=
+  bool_decide (s = mapor_spec_nk H K).
+
+Notation moreach_nk := (reach mnew (mapply orswot_valops) (mmerge orswot_valops) adm_per_actor True).
+Notation mohist_ok_nk := (hist_ok mnew (mapply orswot_valops) (mmerge orswot_valops) mogen_nk adm_per_actor True).
